@@ -21,7 +21,7 @@ LEVEL = 'model_checking'
 IDLE_NS = 5000 * 1000000
 
 
-def worker_contract(L, rep, tier, seed):
+def worker_contract(L, rep, tier, seed, prop='C20'):
     S = Session(L, rep, seed, timeout_ms=10000)
     prog = L.prog
     f_new = c08.find_impl_fn(prog, 'TaskPool', 'new')
@@ -121,7 +121,7 @@ def worker_contract(L, rep, tier, seed):
         if label in seen:
             continue
         seen.add(label)
-        rep.violation(Violation('C20', None, 'worker/contract/%s violated on path %s' % (label, sc), sc, 'worker/contract/' + label))
+        rep.violation(Violation(prop, None, 'worker/contract/%s violated on path %s' % (label, sc), sc, 'worker/contract/' + label))
 
 
 def drop_queries(enc):
